@@ -33,6 +33,12 @@ void __verif_observe_bytes(const char* tag, const void* p, size_t n) {
 }
 int64_t __verif_concretize(int64_t v) { return v; }
 void __verif_reach(const char* tag) { printf("REACH %s\n", tag); fflush(stdout); }
+long __verif_param(int i) {
+  const char* p = getenv("VERIF_PARAMS");
+  if (!p) { printf("NO-PARAMS\n"); exit(4); }
+  for (int k = 0; k < i; k++) { p = strchr(p, ','); if (!p) { printf("PARAM-MISSING %d\n", i); exit(4); } p++; }
+  return strtol(p, 0, 0);
+}
 }
 int main(int argc, char** argv) {
   if (argc < 6) { fprintf(stderr, "usage\n"); return 2; }
